@@ -1,3 +1,4 @@
+import MjProof.Gen.NameOrder
 /-
 Executable model of MuJoCo's name tables (C34):
   * `mj_hashString`, `_getnumadr`, `mj_name2id`, `mj_id2name`          (src/engine/engine_name.c)
@@ -131,6 +132,7 @@ structure Entry where
   cases : List Int
   cntField : Nat
   adrField : Nat
+  deriving DecidableEq, Repr
 
 /-- the fall-through part: every block from the entry point on subtracts its `mjLOAD_MULTIPLE*count` -/
 def mapadrFrom (lm : Nat) (m : CModel) : List Entry → Int → Int
@@ -212,5 +214,29 @@ def id2name (P : Params) (chain : List Entry) (m : CModel) (type : Int) (id : In
         | none => none
         | some c => if c ≠ 0 then (readCStr (m.names.drop a)).map some else some none
     else some none
+
+/-! ### the model instantiated with the tables generated from the source tree -/
+
+namespace Tree
+open MjProof.Gen
+
+/-- `mjLOAD_MULTIPLE` (first definition found; `Props/C34.lean` proves that all definitions agree) and
+    `mj_hashString` with the constants of the tree -/
+def params : Params :=
+  { lm := NameOrder.loadMultiples.headD 0
+    hash := hashString NameOrder.hashInit NameOrder.hashShift }
+
+/-- the `_getnumadr` chain of the tree -/
+def chain : List Entry :=
+  NameOrder.getnumadrChain.map fun (cs, c, a) => { cases := cs.map Int.ofNat, cntField := c, adrField := a }
+
+/-- `mj_makeModel` + `CopyNames` of the tree -/
+def build (modelname : Bytes) (lists : Nat → List Bytes) : Option CModel :=
+  copyNames params NameOrder.copyNamesChain NameOrder.makeModelSum modelname lists
+
+def name2id (m : CModel) (type : Int) (q : Bytes) : Option Int := Name.name2id params chain m type q
+def id2name (m : CModel) (type : Int) (id : Int) : Option (Option Bytes) := Name.id2name params chain m type id
+
+end Tree
 
 end MjProof.Name
